@@ -67,7 +67,8 @@ class Workspace:
                 f.write('#include <%s>\n' % h)
         for _ in range(3):
             r = subprocess.run([CLANG, '-std=c++20', '-fsyntax-only', '-Xclang', '-fixit', '-nostdinc++', '-isystem', os.path.join(VERIF, 'stl')] + GXX_INC +
-                               ['-I', os.path.join(dst, 'include'), '-I', os.path.join(VERIF, 'rt'), '-Wno-everything', '-DVF_MODEL=1', tu], capture_output=True, text=True)
+                               ['-I', os.path.join(dst, 'include'), '-I', os.path.join(VERIF, 'rt'), '-Wno-everything', '-DVF_MODEL=1', '-D__linux__=1', '-fno-exceptions',
+                                '-include', os.path.join(VERIF, 'stl', 'vf_prelude.h'), tu], capture_output=True, text=True)
             if 'error' not in r.stderr:
                 break
         for fp, old in before.items():
@@ -144,6 +145,7 @@ class QueryResult:
     def __init__(self):
         self.status = 'ERROR'     # OK | FAIL | TIMEOUT | OOM | ERROR | UNWIND
         self.failed = []          # [(property id, description)] non-REACH failures
+        self.undecided = []
         self.unreached = []       # REACH assertions that could not be reached
         self.reached = []
         self.nprops = 0
@@ -239,11 +241,15 @@ def run_cbmc(cfiles, name='', defines=(), unwind=8, unwindset=(), timeout=600, m
             if 'trace' in r:
                 res.trace = r['trace']
         elif st not in ('SUCCESS',):
-            res.failed.append((r.get('property'), d + ' [status %s]' % st))
+            # UNKNOWN: CBMC does not decide properties dominated by a failed fatal property (pointer checks)
+            res.undecided.append((r.get('property'), d + ' [status %s]' % st))
     if unwind_fail:
         res.status = 'UNWIND'
     elif res.failed:
         res.status = 'FAIL'
+    elif res.undecided:
+        res.status = 'ERROR'
+        res.log += 'undecided properties without any failure: %s' % res.undecided[:3]
     else:
         res.status = 'OK'
     return res
